@@ -11,14 +11,20 @@ From Oak Require Export Model.Encode.
 Definition kidsr := list (pystr * (kshape * list nat)).      (* child fields, declaration order, by address *)
 Record cell := { k_cls : pystr; k_org : origin; k_props : list (pystr * pval); k_kids : kidsr;
                  k_id : pystr; k_cid : pystr }.
+(* as_dict of a tree: a VALUE carrying the id of every node (the JSON itself is C04's Model/Serial.v) *)
+Inductive sval := SNode (i : pystr) (c : pystr) (o : origin) (ps : list (pystr * pval))
+                        (ks : list (pystr * (kshape * list sval))).
+
 Record st := { heap : list cell;
                reg : list (pystr * nat);        (* NODE_REGISTRY: id -> address *)
                vars : list (option nat);        (* the program's variables (roots) *)
                det : list nat;                  (* ghost: addresses detached / replaced away so far *)
-               gone : list nat }.               (* ghost: addresses found unreachable at some collection *)
+               gone : list nat;                 (* ghost: addresses found unreachable at some collection *)
+               slots : list (nat * sval) }.     (* dicts produced by as_dict and kept by the program (latest first): plain
+                                                   values, NOT references - a slot keeps no node alive *)
 
 Definition init_st (nvars : nat) : st :=
-  {| heap := []; reg := []; vars := repeat None nvars; det := []; gone := [] |}.
+  {| heap := []; reg := []; vars := repeat None nvars; det := []; gone := []; slots := [] |}.
 
 Definition cell_at (s : st) (a : nat) : option cell := nth_error (heap s) a.
 Definition all_kids (c : cell) : list nat := flat_map (fun k => snd (snd k)) (k_kids c).
@@ -71,7 +77,8 @@ Definition gc (s : st) : st :=
   {| heap := heap s;
      reg := filter (fun e => memb (snd e) live) (reg s);
      vars := vars s; det := det s;
-     gone := filter (fun a => negb (memb a live) || memb a (gone s)) (seq 0 (length (heap s))) |}.
+     gone := filter (fun a => negb (memb a live) || memb a (gone s)) (seq 0 (length (heap s)));
+     slots := slots s |}.
 
 (* ---------- operations ---------- *)
 Definition loc := (nat * nat)%type.              (* (variable, position in the pre-order of its tree) *)
@@ -84,7 +91,9 @@ Inductive op :=
 | Detach (x : loc)
 | DetachSelf (x : loc)
 | Drop (v : nat)                                                    (* del variable (+ gc.collect()) *)
-| Read (x : loc) (kind : nat).                                      (* any read-only library call *)
+| Read (x : loc) (kind : nat)                                       (* any read-only library call *)
+| AsDict (src : loc) (slot : nat)                                   (* slot = x.as_dict(): a value, no reference *)
+| AsObj (slot : nat) (dst : nat).                                   (* dst = Cls.as_obj(slot) *)
 
 Inductive errkind := EValue | EType.
 Inductive obs :=
@@ -109,9 +118,16 @@ Fixpoint set_nth {A} (n : nat) (x : A) (l : list A) : list A :=
   | y :: r, S m => y :: set_nth m x r
   end.
 Definition set_var (s : st) (v : nat) (x : option nat) : st :=
-  {| heap := heap s; reg := reg s; vars := set_nth v x (vars s); det := det s; gone := gone s |}.
+  {| heap := heap s; reg := reg s; vars := set_nth v x (vars s); det := det s; gone := gone s; slots := slots s |}.
 Definition set_reg (s : st) (r : list (pystr * nat)) (d : list nat) : st :=
-  {| heap := heap s; reg := r; vars := vars s; det := d; gone := gone s |}.
+  {| heap := heap s; reg := r; vars := vars s; det := d; gone := gone s; slots := slots s |}.
+Definition set_slot (s : st) (k : nat) (v : sval) : st :=
+  {| heap := heap s; reg := reg s; vars := vars s; det := det s; gone := gone s; slots := (k, v) :: slots s |}.
+Fixpoint slot_get (k : nat) (l : list (nat * sval)) : option sval :=
+  match l with
+  | [] => None
+  | (j, v) :: r => if Nat.eqb k j then Some v else slot_get k r
+  end.
 
 Fixpoint mapM_st {S A B} (f : S -> A -> option (S * B)) (s : S) (l : list A) : option (S * list B) :=
   match l with
@@ -163,8 +179,9 @@ Section Machine.
      registered the node): [late s a] = that validation raises (ValueError) for the node at address a, just built and
      registered in state s.  Arbitrary: it may read the node, its children, its id, the registry. *)
   Variable late : st -> nat -> bool.
-  Variable fixed : bool.      (* true: detach_self / detach / replace after the D4 repair (the code in /repo);
-                                 false: the code before it (pop by id, whoever holds it) *)
+  Variable fixed : bool.      (* true: the code in /repo - detach_self / detach / replace after the D4 repair and
+                                 _deserialize after the forced-id repair; false: the code before these repairs (pop by
+                                 id, whoever holds it; force the serialized id over whoever holds it) *)
 
   Definition kd_of (hp : list cell) (ks : kidsr) : kid_digests :=
     map (fun k => (fst k, (fst (snd k),
@@ -183,7 +200,7 @@ Section Machine.
     | Some i =>
       let a := length (heap s) in
       Some ({| heap := heap s ++ [{| k_cls := c; k_org := o; k_props := ps; k_kids := ks; k_id := i; k_cid := cid |}];
-               reg := (i, a) :: reg s; vars := vars s; det := det s; gone := gone s |}, a)
+               reg := (i, a) :: reg s; vars := vars s; det := det s; gone := gone s; slots := slots s |}, a)
     end.
 
   (* the whole constructor call: ASTNode.__post_init__ (alloc), then the subclass's own validation *)
@@ -345,6 +362,84 @@ Section Machine.
       end
     end.
 
+  (* ---------- as_dict / as_obj (node.py `_deserialize`; the JSON itself is C04's Model/Serial.v) ---------- *)
+  (* as_dict of the tree under address a *)
+  Fixpoint ser (hp : list cell) (fuel : nat) (a : nat) : option sval :=
+    match fuel with
+    | 0 => None
+    | S f => match nth_error hp a with
+             | None => None
+             | Some c =>
+               match mapO (fun k : pystr * (kshape * list nat) =>
+                             option_map (fun l => (fst k, (fst (snd k), l))) (mapO (ser hp f) (snd (snd k)))) (k_kids c) with
+               | Some ks => Some (SNode (k_id c) (k_cls c) (k_org c) (k_props c) ks)
+               | None => None
+               end
+             end
+    end.
+  Definition ser_st (s : st) (a : nat) : option sval := ser (heap s) (S a) a.
+
+  Definition with_id (c : cell) (i : pystr) : cell :=
+    {| k_cls := k_cls c; k_org := k_org c; k_props := k_props c; k_kids := k_kids c; k_id := i; k_cid := k_cid c |}.
+
+  (* the forced-id branch: `if new_obj.id != value["id"] and NODE_REGISTRY.get(value["id"]) is None:`
+       NODE_REGISTRY.pop(new_obj.id); object.__setattr__(new_obj, "id", i); NODE_REGISTRY[i] = new_obj.
+     fx = true: the code in /repo - the serialized id is forced only WHILE IT IS FREE, otherwise the new node keeps the
+     unique id it has just been given; fx = false: the code before that repair - the id is forced over whatever entry
+     it has meanwhile got (only a node read further down the same value can have taken it).
+     Ghost: a node whose entry is overwritten is recorded in `det` (the library has unregistered it). *)
+  Definition force_id (fx : bool) (s : st) (a : nat) (cl : cell) (i : pystr) : st :=
+    if fx && (match lookup i (reg s) with Some _ => true | None => false end) then s else
+    let r1 := remove_id (k_id cl) (reg s) in
+    {| heap := set_nth a (with_id cl i) (heap s);
+       reg := dict_set i a r1;
+       vars := vars s;
+       det := match lookup i r1 with Some b => b :: det s | None => det s end;
+       gone := gone s;
+       slots := slots s |}.
+
+  (* ASTNode._deserialize: a registered id is answered by the registered node (WHATEVER node that is); otherwise the
+     children are read (declaration order), then the node is built (fresh id by the usual rule, the class's own
+     validation included) and, when the fresh id differs from the serialized one, the serialized id is forced *)
+  Fixpoint deser (fuel : nat) (s : st) (v : sval) : dres nat :=
+    match fuel with
+    | 0 => DFuel
+    | S f =>
+      match v with
+      | SNode i c o ps ks =>
+        match lookup i (reg s) with
+        | Some b => DOk s b                       (* existing_node = NODE_REGISTRY.get(value["id"]) *)
+        | None =>
+          match mapM_d (fun s k => match mapM_d (deser f) s (snd (snd k)) with
+                                   | DOk s' l => DOk s' (fst k, (fst (snd k), l))
+                                   | DLate s' => DLate s'
+                                   | DFuel => DFuel
+                                   end) s ks with
+          | DFuel => DFuel
+          | DLate s1 => DLate s1
+          | DOk s1 ks' =>
+            match construct s1 c o ps ks' with
+            | DFuel => DFuel
+            | DLate s2 => DLate s2                (* from_dict -> __init__ -> the class's validation raised *)
+            | DOk s2 a =>
+              match cell_at s2 a with
+              | None => DFuel
+              | Some cl => if pystr_eqb (k_id cl) i then DOk s2 a else DOk (force_id fixed s2 a cl i) a
+              end
+            end
+          end
+        end
+      end
+    end.
+
+  Fixpoint sdepth (v : sval) : nat :=
+    match v with
+    | SNode _ _ _ _ ks => S (fold_right (fun k m => fold_right (fun x m' => Nat.max (sdepth x) m') m (snd (snd k))) 0 ks)
+    end.
+
+  (* Cls.as_obj(v): the fuel S (sdepth v) is never exhausted (Proofs/RegistryProofs.v, asobj_no_fuel) *)
+  Definition asobj (s : st) (v : sval) : dres nat := deser (S (sdepth v)) s v.
+
   (* the result is bound to a variable of the program *)
   Definition bind (dst : nat) (r : st * obs) : st * obs :=
     match r with
@@ -419,6 +514,24 @@ Section Machine.
       | None => (s, Skipped)
       | Some _ => (s, OkNone)
       end
+    | AsDict src slot =>
+      match resolve s src with
+      | None => (s, Skipped)
+      | Some a => match ser_st s a with
+                  | Some v => (set_slot s slot v, OkNone)
+                  | None => (s, FuelOut)
+                  end
+      end
+    | AsObj slot dst =>
+      if negb (Nat.ltb dst (length (vars s))) then (s, Bad) else
+      match slot_get slot (slots s) with
+      | None => (s, Skipped)                      (* nothing was ever serialized into this slot *)
+      | Some v => match asobj s v with
+                  | DOk s' a => bind dst (s', OkNode a)
+                  | DLate s' => (s', Raised EValue)
+                  | DFuel => (s, FuelOut)
+                  end
+      end
     end.
 
   (* after every operation whatever became unreachable is gone from the weak registry *)
@@ -462,6 +575,8 @@ Section Machine.
     end.
 End Machine.
 Arguments RSkip {A}. Arguments RBad {A}. Arguments ROk {A} x.
+Arguments asobj : simpl never.
+Arguments ser_st : simpl never.
 
 (* no class validates after the base __post_init__ *)
 Definition no_late : st -> nat -> bool := fun _ _ => false.
